@@ -299,17 +299,35 @@ impl<'p> Placed<'p> {
 		}
 	}
 
-	fn logical_dom(l: &Lg) -> (String, String) {
+	/// Avro name of the logical type the attribute declares
+	pub fn logical_name(l: &Lg) -> &'static str {
 		match l {
-			Lg::Alt(inner) => Self::logical_dom(inner),
-			Lg::Uuid => ("rt::uuid_values()".into(), "Dom::describe($x, o);".into()),
-			Lg::Date | Lg::TimeMillis => ("<i32 as Dom>::values(rec)".into(), "Dom::describe($x, o);".into()),
-			Lg::TimeMicros | Lg::TsMillis | Lg::TsMicros => ("<i64 as Dom>::values(rec)".into(), "Dom::describe($x, o);".into()),
-			Lg::DecImplicit { scale, .. } | Lg::DecBytes { scale, .. } => (format!("rt::decimal_values({scale}, 12)"), "rt::desc_decimal($x, o);".into()),
-			Lg::DecFixed { size, scale, .. } => (format!("rt::decimal_values({scale}, {size})"), "rt::desc_decimal($x, o);".into()),
-			Lg::Duration => ("rt::fixed_values::<12>()".into(), "rt::desc_bytes(&$x[..], o);".into()),
-			Lg::CustomFixed(n) => (format!("rt::fixed_values::<{n}>()"), "rt::desc_bytes(&$x[..], o);".into()),
+			Lg::Alt(inner) => Self::logical_name(inner),
+			Lg::Uuid => "uuid",
+			Lg::Date => "date",
+			Lg::TimeMillis => "time-millis",
+			Lg::TimeMicros => "time-micros",
+			Lg::TsMillis => "timestamp-millis",
+			Lg::TsMicros => "timestamp-micros",
+			Lg::DecImplicit { .. } | Lg::DecBytes { .. } | Lg::DecFixed { .. } => "decimal",
+			Lg::Duration => "duration",
+			Lg::CustomFixed(_) => "custom-stamp",
 		}
+	}
+
+	fn logical_dom(l: &Lg) -> (String, String) {
+		let (vals, inner): (String, &str) = match l {
+			Lg::Alt(inner) => return Self::logical_dom(inner),
+			Lg::Uuid => ("rt::uuid_values()".into(), "Dom::describe($x, o);"),
+			Lg::Date | Lg::TimeMillis => ("<i32 as Dom>::values(rec)".into(), "Dom::describe($x, o);"),
+			Lg::TimeMicros | Lg::TsMillis | Lg::TsMicros => ("<i64 as Dom>::values(rec)".into(), "Dom::describe($x, o);"),
+			Lg::DecImplicit { scale, .. } | Lg::DecBytes { scale, .. } => (format!("rt::decimal_values({scale}, 12)"), "rt::desc_decimal($x, o);"),
+			Lg::DecFixed { size, scale, .. } => (format!("rt::decimal_values({scale}, {size})"), "rt::desc_decimal($x, o);"),
+			Lg::Duration => ("rt::fixed_values::<12>()".into(), "rt::desc_bytes(&$x[..], o);"),
+			Lg::CustomFixed(n) => (format!("rt::fixed_values::<{n}>()"), "rt::desc_bytes(&$x[..], o);"),
+		};
+		// the description states which logical type the field was declared with
+		(vals, format!("o.push_str(\"{{\\\"lg\\\":[\\\"{}\\\",\"); {inner} o.push_str(\"]}}\");", Self::logical_name(l)))
 	}
 
 	// ---- the generator's knowledge of the mapping -------------------------------------------
